@@ -99,7 +99,10 @@ info('C06',
       'quick tier strides through the pair domain (every 11th pair); only the thorough tier is exhaustive'],
      [A_BUILD], configs=BOTH)
 info('C07',
-     'P: MPSGeometry._to_valid_site_index/_to_valid_bond_index index normalisation (see contracts/c_mps.py). '
+     'P: MPSGeometry._to_valid_site_index/_to_valid_bond_index (finite/segment/infinite, every integer index); form-exponent algebra '
+     'with ghost tensors (site, nuL, nuR): MPS.get_B returns the requested exponents using the singular values of the adjacent bonds, '
+     'MPS.get_theta(i,n,formL,formR) has formL/formR at the ends and exponent exactly 1 on every inner bond for every n >= 1, '
+     'the loop body of convert_form (real get_B + set_B) re-establishes nu(_B[i]) == form[i] and touches no other site. '
      'B (bounded, not proof): constructors (from_full, from_product_state, from_Bflat + canonical_form, from_singlets) and random '
      'histories of form conversions/canonicalisations against the dense state, Schmidt values and entropies at every cut, the '
      'recorded norm; infinite MPS under canonical_form_infinite1/2 keep their observables.',
